@@ -84,10 +84,21 @@ def handle : List String → String
           match asc with
           | some a =>
             if panicked then "skip" else
+            -- the audio parameters the ADTS headers must show: the generator's ground truth when the
+            -- harness knows it (`truth=<aot>,<srIndex>,<chan>`), else what the real decoder reported
+            let truth : Option (Nat × Nat × Nat) :=
+              match (kvOf "truth=" toks).map (fun (t : String) => t.splitOn ",") with
+              | some [(x : String), (y : String), (z : String)] =>
+                match String.toNat? x, String.toNat? y, String.toNat? z with
+                | some x, some y, some z => some (x, y, z) | _, _, _ => none
+              | _ => none
             let p : IpcHub.TsSpec.Params :=
-              { sps, pps, aot := a.objectType,
-                srIndex := (if a.extSampleRate > 0 then a.extSamplingIndex else a.samplingIndex),
-                chanCfg := a.channelConfig }
+              match truth with
+              | some (x, y, z) => { sps, pps, aot := x, srIndex := y, chanCfg := z }
+              | none =>
+                { sps, pps, aot := a.objectType,
+                  srIndex := (if a.extSampleRate > 0 then a.extSamplingIndex else a.samplingIndex),
+                  chanCfg := a.channelConfig }
             IpcHub.TsSpec.verdict (IpcHub.TsSpec.holds p (frames.flatMap srcOf) impl)
           | none => "skip"
         s!"model={cmpBytes model impl} panic={boolStr panicked} spec={spec}"
